@@ -241,10 +241,10 @@ def cases(impl, thorough=False):
     add('softmax_dim0', ('NF', 'softmax'), [T((2, 3, 2)), 0], lambda a: a.shape)
     add('log_softmax', ('NF', 'log_softmax'), [T((2, 3)), -1], lambda a: a.shape)
     add('mse_loss', ('NF', 'mse_loss'), [T((2, 3)), T((2, 3))], lambda a, b: a.shape)
-    add('nll_loss', ('NF', 'nll_loss'), [T((3, 4)), T((3,), 'labels:4', False)], lambda a, b: (3, 1))
+    add('nll_loss', ('NF', 'nll_loss'), [T((3, 4)), T((3,), 'labels:4', False)], lambda a, b: (3,))
     add('bce', ('NF', 'binary_cross_entropy'), [T((2, 3), 'prob'), T((2, 3), 'prob', False)], lambda a, b: a.shape)
     add('bce_logits', ('NF', 'binary_cross_entropy_with_logits'), [T((2, 3)), T((2, 3), 'prob', False)], lambda a, b: a.shape)
-    add('cross_entropy', ('NF', 'cross_entropy'), [T((3, 4)), T((3,), 'labels:4', False)], lambda a, b: (3, 1))
+    add('cross_entropy', ('NF', 'cross_entropy'), [T((3, 4)), T((3,), 'labels:4', False)], lambda a, b: (3,))
     add('linear', ('NF', 'linear'), [T((2, 3)), T((4, 3)), T((4,))], lambda a, w, b: (2, 4))
     add('linear_nobias', ('NF', 'linear'), [T((2, 3)), T((4, 3))], lambda a, w: (2, 4))
     add('linear_3d', ('NF', 'linear'), [T((2, 2, 3)), T((4, 3)), T((4,))], lambda a, w, b: (2, 2, 4))
@@ -293,10 +293,10 @@ def cases(impl, thorough=False):
     for red in ('mean', 'sum', 'none'):
         rs = lambda full, red=red: (lambda *a: () if red != 'none' else full)
         add('MSELoss_' + red, ('layer', 'MSELoss', {'reduction': red}, True), [T((2, 3)), T((2, 3))], rs((2, 3)))
-        add('NLLLoss_' + red, ('layer', 'NLLLoss', {'reduction': red}, True), [T((3, 4)), T((3,), 'labels:4', False)], rs((3, 1)))
+        add('NLLLoss_' + red, ('layer', 'NLLLoss', {'reduction': red}, True), [T((3, 4)), T((3,), 'labels:4', False)], rs((3,)))
         add('BCELoss_' + red, ('layer', 'BCELoss', {'reduction': red}, True), [T((2, 3), 'prob'), T((2, 3), 'prob', False)], rs((2, 3)))
         add('BCEWithLogitsLoss_' + red, ('layer', 'BCEWithLogitsLoss', {'reduction': red}, True), [T((2, 3)), T((2, 3), 'prob', False)], rs((2, 3)))
-        add('CrossEntropyLoss_' + red, ('layer', 'CrossEntropyLoss', {'reduction': red}, True), [T((3, 4)), T((3,), 'labels:4', False)], rs((3, 1)))
+        add('CrossEntropyLoss_' + red, ('layer', 'CrossEntropyLoss', {'reduction': red}, True), [T((3, 4)), T((3,), 'labels:4', False)], rs((3,)))
     # ---- Sequential ----------------------------------------------------------------------------------------------------------------
     add('Sequential_mlp', ('seq', [('Linear', {'in_features': 3, 'out_features': 5}), ('ReLU', {}), ('Dropout', {'p': 0.25}),
                                    ('Linear', {'in_features': 5, 'out_features': 2}), ('LogSoftmax', {'dim': 1})], True), [T((4, 3))], lambda a: (4, 2))
